@@ -360,6 +360,23 @@ pub fn main_c17(args: &Args) -> i32 {
         let _ = e;
         return replay_c17(&cli, &src, path);
     }
+    // harvested sources: the enums that ship with the repository, as written (callbacks, payloads, generics, extras,
+    // error types, doc comments); the ones the derive rejects are not CLI inputs
+    for (origin, src) in model::harvest::harvest_raw() {
+        let accepted = std::panic::catch_unwind(|| !logos_codegen::generate(src.parse().unwrap()).to_string().contains("compile_error")).unwrap_or(false);
+        if !accepted {
+            run.count("harvested_sources_rejected_by_the_derive", 1);
+            continue;
+        }
+        run.eval(1);
+        run.count("harvested_sources", 1);
+        if let Err(msg) = literal_check(&cli, &src) {
+            run.violations = 1;
+            report_violation("C17", &args.replay_dir, &json!({"property": "C17", "tier": "L", "origin": origin, "source": src, "history": "[write, check]", "findings": [{"property": "C17", "what": msg}]}));
+            run.write_evidence(&args.evidence);
+            return 1;
+        }
+    }
     let cases = if args.cases > 0 { args.cases } else if args.thorough() { 6000 } else { 400 };
     let strat = (enum_strategy(), vec(fileop(), 0..6));
     let res = drive(&strat, cases, args.seed ^ 0xC17, 300, &mut run, |c, run| check_c17(&cli, c, run));
@@ -381,14 +398,12 @@ pub fn main_c17(args: &Args) -> i32 {
     code
 }
 
-fn replay_c17(cli: &Cli, src: &str, path: &Path) -> i32 {
-    // same checks (1)-(3) and a fixed history on the literal source
-    struct Lit(String);
-    let lit = Lit(src.to_string());
+/// Checks (1)-(3) and a fixed write / check history on a literal enum source.
+fn literal_check(cli: &Cli, src: &str) -> Result<(), String> {
     let input = cli.dir.join("input.rs");
-    std::fs::write(&input, &lit.0).unwrap();
+    std::fs::write(&input, src).unwrap();
     let (code, stdout, stderr) = cli.run(&["input.rs"]);
-    let res = (|| -> Result<(), String> {
+    (|| -> Result<(), String> {
         if code != 0 {
             return Err(format!("logos-cli failed (exit {code}): {stderr}"));
         }
@@ -413,8 +428,11 @@ fn replay_c17(cli: &Cli, src: &str, path: &Path) -> i32 {
             return Err(format!("write/check exit {c}/{c2}"));
         }
         Ok(())
-    })();
-    match res {
+    })()
+}
+
+fn replay_c17(cli: &Cli, src: &str, path: &Path) -> i32 {
+    match literal_check(cli, src) {
         Ok(()) => {
             println!("replay: no violation of C17");
             0
